@@ -27,7 +27,8 @@ enum SutKind {            /* how the class of a state is written */
 	K_BARE,               /* struct : FSM::State {} — defines nothing                            */
 	K_INJ1, K_INJ2, K_INJ3,/* FSM::StateT<Inj<1..k>> and defines every callback itself            */
 	K_PARTIAL,            /* defines entryGuard, enter, exit, update, postReact only              */
-	K_NONE                /* (root only) PeerRoot: there is no root head class                    */
+	K_NONE,               /* (root only) PeerRoot: there is no root head class                    */
+	K_INJ1N               /* FSM::StateT<Inj<1>> that defines no callback itself (only the injection) */
 };
 
 enum SutPayloadKind { P_VOID, P_U8, P_I32, P_F64, P_C3, P_B24, P_A16, P_A32 };
@@ -60,6 +61,7 @@ typedef struct SutView {
 	uint64_t event_value;
 	const void* event_addr;
 	const void* self;                 /* `this` of the class whose callback runs                  */
+	uint32_t self_hits;               /* member data of that object: number of callbacks it has received */
 	const void* ctx_a;                /* &control.context()  (pointer contexts: the pointer)      */
 	const void* ctx_b;                /* &control._()                                             */
 	uint64_t ctx_tag;                 /* value read through the context (0 for empty contexts)    */
@@ -117,6 +119,7 @@ const SutInfo* sut_info(void);
 void* sut_ctx_slot(int slot);                            /* external context object #slot         */
 void* sut_construct(void* mem, int ctx_slot, uint64_t tag, int with_logger);
 void* sut_copy(void* mem, const void* src);
+void* sut_move(void* mem, void* src);                   /* move-construct; src stays a valid (moved-from) object */
 void  sut_destroy(void* inst);
 int   sut_enter(void* inst);
 int   sut_exit(void* inst);
